@@ -21,6 +21,9 @@
 #include <stdlib.h>
 #include <string.h>
 
+#ifdef JLS_VERIF
+size_t jls_verif_buf_default_size = (1 << 20);
+#endif
 
 static inline int32_t wr_end(struct jls_buf_s * self) {
     if (self->cur > self->end) {
